@@ -768,7 +768,9 @@ def check(tier, seed):
         ours_cases.append((ci, cfg, list(ob)))
         if not (same_bytes and same_text):
             rt_bad.append(ci)
-            run.fail_case('our-open-roundtrip', 'our OPEN does not survive pack/unpack/pack unchanged',
+            run.fail_case('our-open-roundtrip-multisession' if cfg['multisession'] else 'our-open-roundtrip',
+                          'our OPEN does not survive pack/unpack/pack unchanged'
+                          + (' (MultiSession.unpack_capability drops the value it is given)' if cfg['multisession'] else ''),
                           {'configuration': conf['text'], 'open_body_hex': ob.hex()})
         for j in range(per):
             stream = ['valid', 'valid', 'valid', 'valid', 'valid', 'odd', 'malformed', 'malformed'][j % 8]
